@@ -106,7 +106,7 @@ def run(ctx):
         k = rng.choice([2, -3, 0.5, np.float64(1.5), np.int64(4), -0.25])
         M = rnd_mat(rng)
         v = np.array([rng.randint(-8, 8) / 2.0 for _ in range(3)])
-        case = dict(cls=cls, ucls=ucls, meta=str(mT), umeta=str(mU))
+        case = dict(cls=cls, ucls=ucls, meta=str(mT), umeta=str(mU), metaT=dict(mT), metaU=dict(mU), A=A.tolist(), B=B.tolist(), M=M.tolist(), kval=float(k), v=v.tolist())
         ops = [("-T", lambda: -T, T, -A), ("+T", lambda: +T, T, A), ("k*T", lambda: k * T, T, k * A), ("T*k", lambda: T * k, T, A * k), ("T/k", lambda: T / k, T, A / k),
                ("T@M", lambda: T @ M, T, A @ M), ("M@T", lambda: M @ T, T, M @ A), ("T+M", lambda: T + M, T, A + M), ("M-T", lambda: M - T, T, M - A)]
         for name, f, src, want in ops:
@@ -198,7 +198,7 @@ def run(ctx):
             w = np.array([rng.choice([0.0, 0.0, 1.0, 2.5]) for _ in range(nW)])
             if w.sum() == 0:
                 w[0] = 1.0
-        case = dict(cls=cls, shape=list(shape), axis=axis, weights=None if w is None else w.tolist())
+        case = dict(cls=cls, shape=list(shape), axis=axis, weights=None if w is None else w.tolist(), data=np.array(data).tolist(), meta0=dict(m0))
         ctx.evaluations += 1
         try:
             r = type(T0).mean(nested, axis=axis, weights=w)
@@ -356,7 +356,71 @@ def run(ctx):
         ctx.coqchk()
 
 
+def _mk(cls, mat, meta):
+    from soprano.nmr.tensor import ElectricFieldGradient, MagneticShielding, NMRTensor
+    if cls == 0:
+        return NMRTensor(np.array(mat), order=meta["order"])
+    if cls == 1:
+        return MagneticShielding(np.array(mat), species=meta["species"], order=meta["order"], reference=meta["reference"], gradient=meta["gradient"])
+    return ElectricFieldGradient(np.array(mat), species=meta["species"], order=meta["order"])
+
+
 def replay(obj):
+    from soprano.nmr.tensor import NMRTensor
+    c = obj.get("case") or {}
+    p = "?"
+    try:
+        if obj.get("kind") == "arith" and "A" in c:
+            T, U = _mk(c["cls"], c["A"], c["metaT"]), _mk(c["ucls"], c["B"], c["metaU"])
+            A, B, M, k, v = np.array(c["A"]), np.array(c["B"]), np.array(c["M"]), c["kval"], np.array(c["v"])
+            op = c.get("op")
+            table = {"-T": (lambda: -T, -A), "+T": (lambda: +T, A), "k*T": (lambda: k * T, k * A), "T*k": (lambda: T * k, A * k), "T/k": (lambda: T / k, A / k),
+                     "T@M": (lambda: T @ M, A @ M), "M@T": (lambda: M @ T, M @ A), "T+M": (lambda: T + M, A + M), "M-T": (lambda: M - T, M - A)}
+            if op in table:
+                p = check_like(table[op][0](), T, table[op][1], op)
+            elif op in ("T+U", "T-U"):
+                want = A + B if op == "T+U" else A - B
+                conflict = (c["ucls"] == c["cls"] and params(T) != params(U))
+                try:
+                    r = T + U if op == "T+U" else T - U
+                    p = ("%s silently combined tensors with conflicting metadata" % op) if conflict else (check_like(r, T, want, op) and check_like(r, U, want, op))
+                except ValueError:
+                    p = None if conflict else "%s refused tensors with identical metadata" % op
+            elif op == "T@v":
+                r = T @ v
+                p = None if (not isinstance(r, NMRTensor) and np.allclose(r, A @ v)) else "T @ v is not the matrix-vector product"
+            else:
+                print("replay: operation %r is not replayable from this file: %s" % (op, obj.get("detail")))
+                return 1
+        elif obj.get("kind") == "mean" and "data" in c:
+            data = np.array(c["data"])
+            shape = tuple(c["shape"])
+            flat = [_mk(c["cls"], m, c["meta0"]) for m in data.reshape((-1, 3, 3))]
+            arr = np.empty(shape, dtype=object)
+            for i, idx in enumerate(np.ndindex(shape)):
+                arr[idx] = flat[i]
+            w = None if c["weights"] is None else np.array(c["weights"])
+            r = type(flat[0]).mean(arr.tolist(), axis=c["axis"], weights=w)
+            if c["axis"] is None:
+                want = np.average(data.reshape((-1, 3, 3)), axis=0, weights=w)
+                got = np.array(r.data)
+            else:
+                want = np.average(data, axis=c["axis"], weights=w)
+                def flatten(x):
+                    return [x] if isinstance(x, NMRTensor) else [z for y in x for z in flatten(y)]
+                got = np.array([np.array(x.data) for x in flatten(r)]).reshape(want.shape)
+            p = None if np.allclose(got, want, atol=1e-12) else "mean differs from the tensor of the (weighted) mean matrix"
+        else:
+            print("replay: nothing executable in this file (re-run ./check C15 with VERIF_SEED=%s): %s" % (obj.get("seed"), obj.get("detail")))
+            return 1
+    except Exception as e:
+        p = "raised %s: %s" % (type(e).__name__, e)
+    print("replay %s %s -> %s" % (obj.get("kind"), c.get("op", c.get("shape")), "property holds" if not p else "PROPERTY FAILS: " + str(p)))
+    return 0 if not p else 1
+
+
+def _old_replay(obj):
+
     print("replay: re-run ./check C15 (inputs are regenerated from the seed %s); recorded case: %s %s" % (obj.get("seed"), obj.get("kind"), str(obj.get("case"))[:400]))
     print(obj.get("detail"))
     return 1
